@@ -975,4 +975,4 @@ class SgzReader(object):
 
     def get_file_text_header(self):
         return [bytearray(self.file_text_header.decode("cp037"),
-                          encoding="ascii", errors="ignore")]
+                          encoding="ascii", errors="replace")]
